@@ -246,8 +246,49 @@ func runB(c BCase, rec *h.Rec) {
 	rec.NTIf(c.WC > 1 && len(want) > bz.BlockSize)
 }
 
+// ---- a failing sink: what was delivered before the failure is still whole blocks in write order ----
+
+type FCase struct {
+	S bz.Script
+	K int // the underlying Write that fails (mod the number of writes of the fault-free run)
+}
+
+func drawF(t *rapid.T) FCase {
+	s := bz.ScriptGen(10, 2).Draw(t, "script")
+	s.WC = rapid.SampledFrom([]int{1, 2, 4, 8}).Draw(t, "wc")
+	return FCase{S: s, K: rapid.IntRange(0, 12).Draw(t, "k")}
+}
+
+func runF(c FCase, rec *h.Rec) {
+	dry := c.S.Run(20 * time.Second)
+	if dry.Hung != "" || len(dry.Errs) > 0 || len(dry.Cuts) == 0 {
+		rec.Skip("fault-free run unusable")
+		return
+	}
+	s := c.S
+	k := c.K % len(dry.Cuts)
+	s.Fault = &bz.Fault{K: k}
+	o := s.Run(20 * time.Second)
+	if o.Hung != "" {
+		rec.Skip("call did not return under a fault (C09's business): " + o.Hung)
+		return
+	}
+	ms, err := bz.Walk(o.Out)
+	if err != nil {
+		rec.Failf("underlying Write #%d failed (nothing delivered by it); the %d bytes delivered by the other writes are not whole blocks: %v", k, len(o.Out), err)
+		return
+	}
+	got := bz.Concat(ms)
+	if !bytes.HasPrefix(o.Model, got) {
+		rec.Failf("underlying Write #%d of %d failed; the sink then holds blocks that decode to %d bytes which are not a prefix of the %d bytes written (first difference at %d): a later block was delivered after the failed one", k, len(dry.Cuts), len(got), len(o.Model), firstDiff(got, o.Model))
+		return
+	}
+	rec.NTIf(k < len(dry.Cuts)-1 && c.S.WC > 1)
+}
+
 func TestProp(t *testing.T) {
 	h.Main(t, "C12",
+		h.Rapid("ordered_under_sink_failure", h.Opt{Quick: 1500, Thorough: 30000}, drawF, runF),
 		h.Rapid("ordered_durable", h.Opt{Quick: 3000, Thorough: 60000}, draw, run),
 		h.Rapid("bam_header_durable", h.Opt{Quick: 1500, Thorough: 20000}, drawB, runB),
 	)
